@@ -22,7 +22,9 @@ META = dict(
          "(implementable, invariants, action properties) and a ring mechanism model refines it.",
     note="The hash function is environment: assignment vectors are observed, never predicted. 'Roughly "
          "proportional to weight' is a driver statistic (nodes with >= 50 virtual nodes, flagged beyond a factor 2, "
-         "recorded in evidence). Ring-position collisions are outside the claim. cache.New / kv.New are driven "
+         "recorded in evidence). Node kinds: string, struct value, pointer to Stringer (default), and in the ':kb'/':kc' "
+         "families pointer to struct without String(), []byte, pointer to int, int, mixed within one history. "
+         "Ring-position collisions are outside the claim. cache.New / kv.New are driven "
          "over two to four in-process redis servers with 5-9 weight vectors: the server observed to hold a key "
          "(miniredis inspection) has positive weight and stays the same across Set, Del+Set, batch Del+Set. The same "
          "contract is also validated on rings built with NewCustomConsistentHash and a caller-supplied hash function "
@@ -103,10 +105,10 @@ def split_traces(prefix):
     return hists
 
 
-def record(ctx, binp, label, cases_path, base, pop, shards=16, hashfn=""):
+def record(ctx, binp, label, cases_path, base, pop, shards=16, hashfn="", kinds="a"):
     prefix = os.path.join(ctx.build, "trace-" + label)
     cnt, bad = ctx.replay(PKG, OVERLAY, RUN, cases_path, label=label, binp=binp, shards=shards,
-                          env=dict(VERIF_BASE=base, VERIF_POP=pop, VERIF_TRACE=prefix, VERIF_HASH=hashfn), source="record")
+                          env=dict(VERIF_BASE=base, VERIF_POP=pop, VERIF_TRACE=prefix, VERIF_HASH=hashfn, VERIF_KINDS=kinds), source="record")
     if bad:
         raise core.Infra("C13 recorder reported verdicts (it must only record): %s" % bad[:2])
     return split_traces(prefix)
@@ -342,7 +344,10 @@ def run(ctx):
         plans = [("g3", ALL_NODES[:3], W, R, 100, 3, None, 500),
                  ("g2b", ALL_NODES, W, R, 200, 2, None, 2000),
                  ("s30", ALL_NODES, W, R, 100, 30, 200, 5000),
-                 ("f2:fnv", ALL_NODES, W, R, 100, 2, None, 500)]
+                 ("f2:fnv", ALL_NODES, W, R, 100, 2, None, 500),
+                 ("kb2:kb", ALL_NODES, W, R, 100, 2, None, 500),
+                 ("kc2:kc", ALL_NODES, W, R, 200, 2, None, 500),
+                 ("kbs:kb", ALL_NODES, W, R, 100, 30, 60, 2000)]
     else:
         plans = [("g3", ALL_NODES, W, R, 100, 3, None, 1000),
                  ("g3b", ALL_NODES[:3], W, R, 200, 3, None, 1000),
@@ -350,21 +355,27 @@ def run(ctx):
                  ("s30", ALL_NODES, W, R, 100, 30, 2000, 4000),
                  ("s30b", ALL_NODES, W, R, 200, 30, 500, 4000),
                  ("f3:fnv", ALL_NODES[:3], W, R, 100, 3, None, 500),
+                 ("kb3:kb", ALL_NODES, [0, 50, 100], [0, 50, 200], 100, 3, None, 500),
+                 ("kc3:kc", ALL_NODES[:3], W, R, 100, 3, None, 500),
+                 ("kbs:kb", ALL_NODES, W, R, 100, 30, 500, 2000),
+                 ("kcs:kc", ALL_NODES, W, R, 200, 30, 500, 2000),
                  ("fs30:fnv", ALL_NODES, W, R, 200, 30, 300, 2000)]
     ctx.exhaustive = True
     acc = dict(min=9.9, max=0.0, seen=set())
     for name, nodes, w, r, base, maxops, sim, pop in plans:
-        name, _, hashfn = name.partition(":")      # ":fnv" = NewCustomConsistentHash with a caller-supplied hash function
+        name, _, opt = name.partition(":")      # ":fnv" = caller-supplied hash function, ":kb"/":kc" = other node kinds
+        hashfn = "fnv" if opt == "fnv" else ""
+        kinds = opt[1:] if opt in ("kb", "kc") else "a"
         cases = gen(ctx, name, nodes, w, r, base, maxops, simulate=sim)
         if not cases:
             raise core.Infra("generator %s produced no history" % name)
         path, cnt = ctx.write_cases(name + ".ndjson", cases)
         ctx.samples += core.sample_of(cases, 1)
-        hists = record(ctx, binp, name, path, base, pop, hashfn=hashfn)
+        hists = record(ctx, binp, name, path, base, pop, hashfn=hashfn, kinds=kinds)
         if len(hists) != cnt:
             raise core.Infra("%s: %d histories generated, %d recorded" % (name, cnt, len(hists)))
         validate(ctx, name, hists, tspec(consts(ALL_NODES, w, r, base)), path)
-        if not hashfn:
+        if not hashfn and kinds == "a":
             shares(ctx, hists, base, acc)
     cluster(ctx)
     class_shares(ctx)
